@@ -157,14 +157,14 @@ def value_twin(rng, v, numeric=True):
 # ---------------------------------------------------------------------------- carriers
 
 CARRIERS = ("str", "bytes", "bytearray", "mv", "mvw")
-WINDOW_CARRIERS = ("mvs", "mvws")  # memoryviews that are windows onto a larger buffer
+WINDOW_CARRIERS = ("mvs", "mvws", "mvro")  # memoryviews that are windows onto a larger buffer; a read-only view of a writable one
 
 
 def carry(text: str, carrier: str):
     if carrier == "str":
         return text
     hx = text.encode("utf-8", "surrogatepass").hex()
-    return {{"bytes": "$b", "bytearray": "$ba", "mv": "$mv", "mvw": "$mvw", "mvs": "$mvs", "mvws": "$mvws"}[carrier]: hx}
+    return {{"bytes": "$b", "bytearray": "$ba", "mv": "$mv", "mvw": "$mvw", "mvs": "$mvs", "mvws": "$mvws", "mvro": "$mvro"}[carrier]: hx}
 
 
 def json_text(wire) -> str | None:
@@ -252,7 +252,7 @@ def env_relative_value(v) -> bool:
             if "$dt" in cur and cur["$dt"][7] is None:
                 return True
             hit = False
-            for tag in ("$b", "$ba", "$mv", "$mvw", "$mvs", "$mvws"):
+            for tag in ("$b", "$ba", "$mv", "$mvw", "$mvs", "$mvws", "$mvro", "$mm"):
                 if tag in cur:
                     hit = True
                     try:
